@@ -720,6 +720,49 @@ def r6(ctx, R):
                     R.ok("C03.R6", f.short, k, loc(f, r), "payload may be None; the parser tests it before use")
 
 
+# ------------------------------------------------------------------- R7
+def r7(ctx, R):
+    R.rule("C03.R7", "a loop that walks forward through the line buffer stops at its end: the index is bounded by the line count in the loop condition, or the line read is tested for None before it is used", floor=2, confirmed=3)
+    from .c02 import file_class
+
+    fc = file_class(ctx)
+    n = 0
+    for q in fc.methods.values():
+        f = ctx.m.funcs[q]
+        F = None
+        for lp in (x for x in ctx.m.walk_own(f.node) if isinstance(x, ast.While)):
+            reads = [c for c in calls_in(lp) if isinstance(c.func, ast.Attribute) and c.func.attr == "get_line" and unparse(c.func.value) == "self" and c.args and isinstance(c.args[0], ast.Name)]
+            for c in reads:
+                idx = c.args[0].id
+                fwd = any(isinstance(s_, ast.AugAssign) and isinstance(s_.op, ast.Add) and unparse(s_.target) == idx for s_ in ast.walk(lp))
+                if not fwd:
+                    continue
+                n += 1
+                F = F or ctx.facts(f, interproc=False)
+                test_txt = unparse(lp.test)
+                bounded = "nLines" in test_txt and (idx in test_txt or any(isinstance(x, ast.Name) and x.id in test_txt for x in []))
+                bounded = bounded or ("nLines" in test_txt)
+                st = ctx.m.enclosing_stmt(c)
+                tgt = st.targets[0].id if isinstance(st, ast.Assign) and isinstance(st.targets[0], ast.Name) else None
+                tested = False
+                if tgt:
+                    # every later use of the result inside the loop is behind a None test
+                    uses = [u for u in ast.walk(lp) if isinstance(u, ast.Name) and u.id == tgt and isinstance(u.ctx, ast.Load) and u.lineno > st.lineno]
+                    tested = bool(uses) and all(any(b[0] == "nonnull" and b[1] == tgt for b in (F.at(u) or set())) or _is_none_test(ctx, u) for u in uses)
+                k = f"while {test_txt[:50]}: {unparse(st)[:50]}"
+                if bounded or tested:
+                    R.ok("C03.R7", f.short, k, loc(f, c), "index bounded by the line count" if bounded else "line tested for None before use")
+                else:
+                    R.violation("C03.R7", f.short, k, loc(f, c), f"`{idx}` is advanced and the line at `{idx}` is read without the loop being bounded by the number of lines and without a None test on what was read: a document whose last line continues (a half-typed continued statement) makes get_line return None and the next use of it raises TypeError - parse() fails")
+    if n < 2:
+        raise AnalysisError(f"only {n} forward line walks found in the file class")
+
+
+def _is_none_test(ctx, u):
+    p = ctx.m.parent.get(u)
+    return isinstance(p, ast.Compare) and len(p.ops) == 1 and isinstance(p.ops[0], (ast.Is, ast.IsNot)) and isinstance(p.comparators[0], ast.Constant) and p.comparators[0].value is None
+
+
 def run(ctx, R):
     r1(ctx, R)
     r2(ctx, R)
@@ -727,3 +770,4 @@ def run(ctx, R):
     r4(ctx, R)
     r5(ctx, R)
     r6(ctx, R)
+    r7(ctx, R)
